@@ -66,18 +66,19 @@ def _kinds(lines, verdicts):
 
 # fractions of the judged lines that a full-size run must reach (a run that does not exercise what the
 # evidence claims is reported as broken correspondence)
-_FLOORS = {"ring-replica": 0.15, "tablet-replica": 0.04, "pool-probe": 0.04, "ring-no-usable-replica": 0.03,
-           "tablet-unknown-token": 0.03, "tablet-no-usable-replica": 0.005, "not-token-aware": 0.02,
+_FLOORS = {"ring-replica": 0.15, "tablet-replica": 0.03, "pool-probe": 0.04, "ring-no-usable-replica": 0.03,
+           "tablet-unknown-token": 0.03, "tablet-no-usable-replica": 0.003, "not-token-aware": 0.02,
            "lwt-replica": 0.02, "owner-shard-in-partial-pool": 0.002, "tablet-replica-after-shard-migration": 0.002,
-           "refill": 0.01, "refill-after-connection-loss": 0.001}
+           "refill": 0.01, "refill-after-connection-loss": 0.001, "refill-with-trimmed-excess": 0.0001}
 
 
 def _post(lines, verdicts):
     """Environment trouble (mock cluster / session did not start, pools not established, tablet feedback not
     observed, harness timeout, connections changing under a request) is a counted NOT-RUN, never a violation:
-    tolerated up to max(5, 2 %) of the lines, and per configuration class (pool kind x shard-aware port x
-    stopped / down / filtered nodes) at most max(1, 25 %) of the class's clusters may contain a not-run
-    (classes of >= 8 clusters), so that a defect which keeps one kind of scenario from settling cannot hide."""
+    tolerated up to max(5, 2 %) of the lines, at most max(3, 3 %) of the clusters may fail to be set up, and per
+    configuration class (pool kind x shard-aware port x stopped / down / filtered nodes; classes of fewer than 8
+    clusters pooled into "other") at most max(1, 25 %) of the clusters may contain a not-run line, so that a defect
+    which keeps one kind of scenario from settling cannot hide."""
     out = []
     sk = [ln for ln, v in zip(lines, verdicts) if _skipped(ln, v)]
     if len(sk) > max(5, len(lines) * 2 // 100):
@@ -90,12 +91,22 @@ def _post(lines, verdicts):
             continue
         cl = per.setdefault(_cluster_class(k), {})
         cl[k] = cl.get(k, False) or _skipped(ln, v)
-    for cls, clusters in sorted(per.items()):
+    # classes of fewer than 8 clusters are pooled into one class "other" (same bound)
+    pooled = {}
+    for cls, clusters in per.items():
+        pooled.setdefault(cls if len(clusters) >= 8 else "other", {}).update(clusters)
+    for cls, clusters in sorted(pooled.items()):
         bad = [k for k, s in clusters.items() if s]
-        if len(clusters) >= 8 and len(bad) > max(1, len(clusters) // 4):
+        if len(bad) > max(1, len(clusters) // 4):
             ex = next(ln for ln, v in zip(lines, verdicts) if _cluster_key(ln) == bad[0] and _skipped(ln, v))
             out.append(("diff", ex, "diff e2e tie not exercised for configuration class %s: %d of %d clusters had requests not run"
                         % (cls, len(bad), len(clusters))))
+    # a cluster that could not be set up leaves ONE line: bound the clusters, not only the lines
+    allc = {k for cl in per.values() for k in cl}
+    notstarted = [ln for ln, v in zip(lines, verdicts) if ln.startswith("K ") and _skipped(ln, v) and _impl(ln) and _impl(ln)[0].startswith("skip:")
+                  and ln.split("|")[0].split()[-1] == "n" and ln.split("|")[0].split()[6] == "-"]
+    if len(notstarted) > max(3, len(allc) * 3 // 100):
+        out.append(("diff", notstarted[0], "diff e2e tie not exercised: %d of %d clusters could not be set up" % (len(notstarted), len(allc))))
     judged = len(lines) - len(sk)
     if len(lines) >= 5000:                      # a full-size run (not a replay)
         kinds = _kinds(lines, verdicts)
@@ -189,15 +200,18 @@ SPEC = {
              "the observation is the (node, server-side shard) at which the first EXECUTE frame of the request arrived. "
              "R lines = the refiller tie: at the end of a cluster's life, per node, the history of pool connections completing "
              "their handshake (server-side shard, shard-aware port or not) and being cut by the mock (kill rounds between "
-             "statements: one / some / all connections of a node, then the pools are re-established by probing), and the pool "
+             "statements: one / some / all connections of a node, preceded by raw TCP connections that shift the mock's plain-port "
+             "round-robin so that replacements land on covered shards and become excess connections; then the pools are "
+             "re-established by probing), and the pool "
              "that was finally established; the extracted refiller model run over that history must end with that pool. "
              "Tablet histories interleave payloads of the cluster's tables, include split / merge sequences and tablets listing a "
-             "host twice; one cluster in eight has a node without tokens. "
+             "host twice; one in eight of the clusters with >= 3 nodes (~8 % of all) has a node without tokens. "
              "P lines = the pool tie: while establishing the pools every (node, shard), shard = nr_shards and shard 70000 is "
              "probed through a pinning policy and the server-side shard of the serving connection is recorded. "
              "non-trivial = a first frame was seen / a probe; distinct = distinct case lines; requests not run for environmental "
              "reasons (scenario could not be set up after one retry, pools not established, connections changed under the request, "
-             "harness timeout after one retry) are counted and bounded: max(5, 2%) overall and per configuration class; "
+             "harness timeout after one retry, abandoned probe) are counted and bounded: max(5, 2%) of the lines, max(3, 3%) of the "
+             "clusters not set up, and max(1, 25%) of the clusters of a configuration class (classes < 8 clusters pooled); "
              "per-kind coverage floors are enforced on full-size runs"),
     "nontrivial": lambda ln: (ln.startswith("P ") or ln.startswith("R ") or ":" in (_impl(ln) or ["-"])[0]) and not _skipped(ln),
     "extra_coverage": _cov,
@@ -218,9 +232,12 @@ SPEC = {
         "random choices of the driver (replica choice, shuffles, rotation, random shard, random connection of a slot) are "
         "oracles: every theorem quantifies over them and the tie uses the acceptor route_ok, proved sound (accepted => property) "
         "and complete for the model (every oracle's outcome is accepted)",
-        "tablets_coherent / cluster_ok / sorted_weak / keys_ok are hypotheses of the model theorems; C12_tablets_reachable, "
-        "C12_shard, C04_ring show they hold of every state the modelled code can reach; the driver re-checks pool "
+        "cluster_ok / sorted_weak / tablets_coherent are hypotheses of the model theorems that C12_shard, C04_ring and "
+        "C12_tablets_reachable show of every state the modelled code can reach; keys_ok (an NTS map has one entry per datacenter), "
+        "cho_ok and shuf_ok (drawn indices in range, shuffles are permutations) are assumed; the driver re-checks pool "
         "well-formedness of its input with pool_wfb (C12_pool_wfb_sound)",
+        "the refiller tie replays the connection events in the order the mock saw them and compares shards per slot only; the "
+        "dropped shard-aware surplus connection, the excess limit and a later resharding are not reached by it",
     ],
 }
 
